@@ -41,7 +41,7 @@ claim("C20", "R9,R6,R2", "guard truth-table evaluation over the orderings of the
 
 claim("C01", "R13,R14,R28,R29,R30,R31", "provenance classification of every getChunkSize call site (role from where the result flows, kind from where the arguments come) + format-constant table check, in both build-tag configurations",
       "Narrow claim. Decides that the build writer, the merge writer and the reader derive the postings chunk size from (the segment's chunk mode, a postings cardinality, the segment's document count) alike, and that the encoding constants have their v16 values. Does not decide which hits/frequencies/locations come back.", TB, "DESIGN.md §3 R13 R14, §4 C01")
-claim("C02", "R19,R26,R27,R33", "path analysis of the stored-field visitor loop (pending/stop typestate over visitor results, edge-sensitive), truth-table evaluation of the document-number guard over the orderings of (num, numDocs), natural-loop exit analysis of DocNumbers",
+claim("C02", "R19,R26,R27,R33,R10", "path analysis of the stored-field visitor loop (pending/stop typestate over visitor results, edge-sensitive), truth-table evaluation of the document-number guard over the orderings of (num, numDocs), natural-loop exit analysis of DocNumbers",
       "Decides that a visitor's stop request is honoured on every path, that document numbers at or beyond Count never index the stored table, and that DocNumbers looks at every given id. Does not decide byte-for-byte round trip of stored values.", TB, "DESIGN.md §3 R19 R26, §4 C02")
 claim("C03", "R13,R4,R20,R15,R26,R27,R31", "chunk-size provenance classification; receiver-provenance analysis of mutating docValueReader methods (clone-before-mutate); edge-sensitive typestate of a reused visit state (fresh / compared / stale); sibling effect comparison and loop-coverage of the two loaders",
       "Decides that doc-value writers and reader derive the chunk size identically, shared readers are only used through private clones, a reused visit state is validated against the segment and emptied when it differs, and both loaders visit every field with the same effects. Does not decide the terms returned.", TB, "DESIGN.md §3 R13 R4 R20 R15 R26, §4 C03")
